@@ -866,12 +866,23 @@ impl<'ctx> ByteCompiler<'ctx> {
                     self.emit_binding_access(BindingAccessOpcode::SetName, &index, value);
                 }
                 Err(BindingLocatorError::MutateImmutable) => {
-                    let index = self.get_or_insert_string(name);
-                    self.bytecode.emit_throw_mutate_immutable(index.into());
+                    self.emit_assignment_to_immutable(name);
                 }
                 Err(BindingLocatorError::Silent) => {}
             },
         }
+    }
+
+    /// Emits the error of an assignment to an immutable binding: a `ReferenceError` while the
+    /// binding is still uninitialized, a `TypeError` afterwards.
+    fn emit_assignment_to_immutable(&mut self, name: JsString) {
+        let binding = self.lexical_scope.get_identifier_reference(name.clone());
+        let index = self.get_binding(&binding);
+        let scratch = self.register_allocator.alloc();
+        self.emit_binding_access(BindingAccessOpcode::GetName, &index, &scratch);
+        self.register_allocator.dealloc(scratch);
+        let index = self.get_or_insert_string(name);
+        self.bytecode.emit_throw_mutate_immutable(index.into());
     }
 
     fn next_opcode_location(&mut self) -> Address {
@@ -1603,8 +1614,7 @@ impl<'ctx> ByteCompiler<'ctx> {
                             self.emit_binding_access(BindingAccessOpcode::SetName, &index, value);
                         }
                         Err(BindingLocatorError::MutateImmutable) => {
-                            let index = self.get_or_insert_string(name);
-                            self.bytecode.emit_throw_mutate_immutable(index.into());
+                            self.emit_assignment_to_immutable(name);
                         }
                         Err(BindingLocatorError::Silent) => {}
                     }
